@@ -143,3 +143,38 @@ theorem nextOut_eq_next {items : List α} {f : α → Out β} {s : St β} (h : J
   · omega
 
 end P2.ParStage
+
+namespace P2.ParStage
+variable {α β : Type}
+
+/-- every step uses up a bounded resource: no run is longer than twice the source -/
+def St.measure (n : Nat) (s : St β) : Nat := 2 * (n - s.next) + s.inflight.length
+
+theorem step_measure {items : List α} {f : α → Out β} {w : Nat} {s s' : St β}
+    (st : Step items f w s s') : s'.measure items.length < s.measure items.length := by
+  cases st with
+  | dispatch hlt _ =>
+    simp only [St.measure, List.length_cons]
+    omega
+  | arrive i hi =>
+    simp only [St.measure]
+    have : (s.inflight.erase i).length = s.inflight.length - 1 := List.length_erase_of_mem hi
+    have : 0 < s.inflight.length := List.length_pos_of_mem hi
+    omega
+
+/-- a state that is not over can move: a held result can always arrive, and with an idle worker the next
+source item can be dispatched -/
+theorem progress {items : List α} {f : α → Out β} {w : Nat} (hw : 0 < w) (s : St β)
+    (hnot : ¬ (s.inflight = [] ∧ s.next = items.length)) (hle : s.next ≤ items.length) :
+    ∃ s', Step items f w s s' := by
+  cases hfl : s.inflight with
+  | cons i rest =>
+    exact ⟨_, Step.arrive s i (by simp [hfl])⟩
+  | nil =>
+    have hlt : s.next < items.length := by
+      by_cases h : s.next = items.length
+      · exact absurd ⟨hfl, h⟩ hnot
+      · omega
+    exact ⟨_, Step.dispatch s hlt (by simp [hfl]; exact hw)⟩
+
+end P2.ParStage
